@@ -174,11 +174,25 @@ class Judge:
             return
         pool = qpool()
         judged = 0
-        for t in range(10):
+        for t in range(14):
             env = {}
-            for s in syms:
+            # the first assignments are structured: all zero, all equal, one symbol zero (ties and zeros are where sign facts and <, <= differ)
+            same = self.rnd.choice(pool)
+            zero_one = self.rnd.randrange(len(syms)) if syms else 0
+            for si, s in enumerate(syms):
                 k = numpy.dtype(sym_dtype(s)).kind
-                env[s.operands[0]] = (self.rnd.random() < 0.5) if k == "b" else (self.rnd.randint(-2, 3) if k == "i" else self.rnd.choice(pool))
+                if k == "b":
+                    env[s.operands[0]] = self.rnd.random() < 0.5
+                elif k == "i":
+                    env[s.operands[0]] = self.rnd.randint(-2, 3)
+                elif t == 0:
+                    env[s.operands[0]] = pool[0]
+                elif t == 1:
+                    env[s.operands[0]] = same
+                elif t == 2 and si == zero_one:
+                    env[s.operands[0]] = pool[0]
+                else:
+                    env[s.operands[0]] = self.rnd.choice(pool)
             def bad(v):
                 return v is UNDEF or v is UNKNOWN or (isinstance(v, list) and any(w is UNDEF or w is UNKNOWN for w in v))
 
@@ -214,6 +228,69 @@ class Judge:
                 break
         if judged:
             rec.count("programs:judged-exact" if where == "program" else "steps:judged-exact")
+
+
+SIGN_CLAIMS = {
+    "_is_nonnegative": (lambda v: v >= 0, lambda v: v < 0),
+    "_is_nonpositive": (lambda v: v <= 0, lambda v: v > 0),
+    "_is_positive": (lambda v: v > 0, lambda v: v <= 0),
+    "_is_negative": (lambda v: v < 0, lambda v: v >= 0),
+    "_is_zero": (lambda v: v == 0, lambda v: v != 0),
+    "_is_nonzero": (lambda v: v != 0, lambda v: v == 0),
+}
+# Expr._is_one is not monitored: no rewrite rule consults it (its claim "abs(x) / square(x) is not one because x is not one" is wrong at
+# x = -1, but that cannot change what a rewrite produces, so it is outside this property; noted in DESIGN.md)
+
+
+def sign_monitor(rec, rnd, root):
+    """The rewriter's comparison rules rest on the sign facts inferred by Expr._is_* : every fact claimed for a node of the program
+    (True or False; None = no claim) must hold for the node's exact value at every assignment where that value is defined."""
+    from fractions import Fraction as F
+
+    nodes = [n for n in graph.walk(root) if hasattr(n, "kind")]
+    syms = exprinterp.symbols_of(root)
+    if any(numpy.dtype(sym_dtype(s_)).kind != "f" for s_ in syms):
+        return
+    pool = qpool()
+    envs = []
+    for t in range(8):
+        same = rnd.choice(pool)
+        z = rnd.randrange(len(syms)) if syms else 0
+        envs.append({s_.operands[0]: (pool[0] if t == 0 or (t == 2 and i_ == z) else same if t == 1 else rnd.choice(pool)) for i_, s_ in enumerate(syms)})
+    for n in nodes:
+        try:
+            if n.kind in ("symbol", "list", "item", "complex") or n.is_complex or n._is_boolean or n.get_type().kind not in ("float", "integer"):
+                continue
+        except Exception:
+            continue
+        claims = {}
+        for name in SIGN_CLAIMS:
+            try:
+                c = getattr(n, name)
+            except Exception as ex:
+                rec.count("sign-monitor:inference-raises:" + type(ex).__name__)
+                continue
+            if c is not None:
+                claims[name] = bool(c)
+        if not claims:
+            rec.count("sign-monitor:nodes-without-claim")
+            continue
+        rec.count("sign-monitor:nodes-with-claims")
+        for env in envs:
+            try:
+                v = exprinterp.eval_Q(n, env, eager=True, fold_constants=False)
+            except (ZeroDivisionError, IndexError, TypeError, KeyError):
+                continue
+            if v is UNDEF or v is UNKNOWN or isinstance(v, (bool, list)) or not isinstance(v, (F, int)):
+                continue
+            rec.count("sign-monitor:claims-checked", len(claims))
+            rec.count("evaluations")
+            for name, c in claims.items():
+                ok = SIGN_CLAIMS[name][0 if c else 1](v)
+                if not ok:
+                    rec.violation(f"sign-fact:{name}:{n.kind}", dict(rule=name, claim=c, node=describe(n), value=str(v), assignment={k_: str(v_) for k_, v_ in env.items()},
+                                                                      operand_kinds=[getattr(o, "kind", type(o).__name__) for o in n.operands]))
+                    return
 
 
 def pick(v, j):
@@ -325,9 +402,55 @@ class Gen:
         self.pool_f.append(e)
         return e
 
+    def sign_class(self, cls, depth):
+        """an expression whose sign class (pos, nonneg, neg, nonpos) follows compositionally from its operands"""
+        rnd, ctx = self.rnd, self.ctx
+        flip = {"pos": "neg", "neg": "pos", "nonneg": "nonpos", "nonpos": "nonneg"}
+        if depth <= 0 or rnd.random() < 0.25:
+            a = self.f(0)
+            if cls == "pos":
+                return rnd.choice([lambda: ctx.constant(rnd.choice([1, 2, 0.5, 3, "eps", "smallest", "largest", "pi"]), a), lambda: ctx.absolute(a) + ctx.constant(rnd.choice([1, 0.5, "eps"]), a),
+                                   lambda: ctx.square(a) + ctx.constant(2, a)])()
+            if cls == "nonneg":
+                return rnd.choice([lambda: ctx.absolute(a), lambda: ctx.square(a), lambda: ctx.sqrt(ctx.absolute(a)), lambda: a * a, lambda: ctx.constant(0, a)])()
+            return -self.sign_class(flip[cls], 0)
+        k = rnd.choice(["mul", "mul", "div", "add", "sub", "neg", "sqrt", "abs"])
+        strict = cls in ("pos", "neg")
+        positive_side = cls in ("pos", "nonneg")
+        P, N = ("pos", "neg") if strict else ("nonneg", "nonpos")
+        if k in ("mul", "div"):
+            # (+,+) (-,-) give the positive side; (+,-) (-,+) the negative side; a weak factor makes the result weak
+            ca, cb = rnd.choice([(P, P), (N, N)] if positive_side else [(P, N), (N, P)])
+            if not strict and rnd.random() < 0.6:
+                # one strict factor and one weak factor
+                if rnd.random() < 0.5:
+                    ca = {"nonneg": "pos", "nonpos": "neg"}[ca]
+                else:
+                    cb = {"nonneg": "pos", "nonpos": "neg"}[cb]
+            x, y = self.sign_class(ca, depth - 1), self.sign_class(cb, depth - 1)
+            if k == "div" and cb in ("pos", "neg"):
+                return x / y
+            return x * y
+        if k == "add":
+            return self.sign_class(cls, depth - 1) + self.sign_class(P if positive_side else N, depth - 1) if not strict else \
+                self.sign_class(cls, depth - 1) + self.sign_class(rnd.choice(["pos", "nonneg"]) if positive_side else rnd.choice(["neg", "nonpos"]), depth - 1)
+        if k == "sub":
+            other = (rnd.choice(["neg", "nonpos"]) if positive_side else rnd.choice(["pos", "nonneg"])) if strict else (N if positive_side else P)
+            return self.sign_class(cls, depth - 1) - self.sign_class(other, depth - 1)
+        if k == "sqrt" and positive_side:
+            return ctx.sqrt(self.sign_class(cls, depth - 1))
+        if k == "abs" and positive_side:
+            return ctx.absolute(self.sign_class(rnd.choice([cls, flip[cls]]), depth - 1))
+        return -self.sign_class(flip[cls], depth - 1)
+
     def signed(self, depth):
         """sub-expressions with an inferable sign"""
         rnd, ctx = self.rnd, self.ctx
+        if rnd.random() < 0.6:
+            try:
+                return self.sign_class(rnd.choice(["pos", "nonneg", "neg", "nonpos"]), min(depth, 2) + 1)
+            except (AssertionError, TypeError, ValueError):
+                pass
         a = self.f(depth)
         k = rnd.randrange(9)
         if k == 0:
@@ -434,6 +557,7 @@ def task_programs(params, rec):
         except (AssertionError, TypeError, NotImplementedError, ValueError, AttributeError) as ex:
             rec.count("generator-refused:" + type(ex).__name__)
             continue
+        sign_monitor(rec, rnd, e)
         tgt = rnd.choice(targets)
         deep_first = rnd.choice([True, True, False])
         STEPS[0] = 0
